@@ -323,7 +323,7 @@ pub fn render_program(units: &[Unit], crate_attrs: &str) -> Program {
     let mut ranges = Vec::new();
     for (i, u) in units.iter().enumerate() {
         let start = src.lines().count() + 1;
-        src.push_str(&format!("#[allow(dead_code, non_camel_case_types, non_snake_case, unused_imports)]\npub mod t{i} {{\n"));
+        src.push_str(&format!("#[allow(dead_code, non_camel_case_types, non_snake_case, non_upper_case_globals, unused_imports)]\npub mod t{i} {{\n"));
         src.push_str(&u.body);
         if !u.body.ends_with('\n') {
             src.push('\n');
@@ -531,4 +531,73 @@ fn run_units(exe: &Path, ix: &[usize], units: &[Unit], outcomes: &mut [UnitOutco
             outcomes[*gi].died = Some(why);
         }
     }
+}
+
+/// Compile units as modules of one `#![no_std]` library crate (metadata only). Returns per-unit
+/// error/warning lists; bisects like `eval_batch`.
+pub fn eval_nostd_lib(tag: &str, units: &[Unit], so: &Path) -> Vec<UnitOutcome> {
+    let dir = work_dir(tag);
+    let mut outcomes: Vec<UnitOutcome> = vec![UnitOutcome::default(); units.len()];
+    let mut todo: Vec<Vec<usize>> = vec![(0..units.len()).collect()];
+    let mut serial = 0;
+    while let Some(ix) = todo.pop() {
+        if ix.is_empty() {
+            continue;
+        }
+        serial += 1;
+        let mut src = String::from("#![no_std]\n");
+        let mut ranges = Vec::new();
+        for (k, i) in ix.iter().enumerate() {
+            let start = src.lines().count() + 1;
+            src.push_str(&format!("#[allow(dead_code, non_camel_case_types, non_snake_case, non_upper_case_globals, unused_imports)]\npub mod t{k} {{\n{}\n}}\n", units[*i].body));
+            ranges.push((start, src.lines().count()));
+        }
+        let p = dir.join(format!("n{serial}.rs"));
+        std::fs::write(&p, &src).expect("write");
+        let out = dir.join(format!("libn{serial}.rmeta"));
+        let cr = rustc_compile(&p, &out, so, &["--crate-type", "lib", "--emit=metadata"]);
+        let mut bad = vec![false; ix.len()];
+        let mut local: Vec<(usize, Diag)> = Vec::new();
+        for dg in &cr.diags {
+            if dg.level != "error" && dg.level != "warning" {
+                continue;
+            }
+            if let Some(u) = ranges.iter().position(|(a, b)| dg.line >= *a && dg.line <= *b) {
+                if dg.level == "error" {
+                    bad[u] = true;
+                }
+                local.push((u, dg.clone()));
+            }
+        }
+        if cr.success || ix.len() == 1 {
+            for (u, dg) in local {
+                let o = &mut outcomes[ix[u]];
+                let text = format!("{}{}: {}", dg.level, dg.code.as_ref().map(|c| format!("[{c}]")).unwrap_or_default(), dg.message);
+                if dg.level == "error" {
+                    o.compile_errors.push(text);
+                } else {
+                    o.warnings.push(text);
+                }
+            }
+            if !cr.success && outcomes[ix[0]].compile_errors.is_empty() {
+                outcomes[ix[0]].compile_errors.push(format!("compilation failed: {:?} {:?}", cr.crashed, cr.diags.iter().map(|d| d.message.clone()).collect::<Vec<_>>()));
+            }
+        } else {
+            let b: Vec<usize> = ix.iter().enumerate().filter(|(k, _)| bad[*k]).map(|(_, i)| *i).collect();
+            let g: Vec<usize> = ix.iter().enumerate().filter(|(k, _)| !bad[*k]).map(|(_, i)| *i).collect();
+            if b.is_empty() {
+                let mid = ix.len() / 2;
+                todo.push(ix[..mid].to_vec());
+                todo.push(ix[mid..].to_vec());
+            } else {
+                for x in b {
+                    todo.push(vec![x]);
+                }
+                todo.push(g);
+            }
+        }
+        let _ = std::fs::remove_file(&p);
+        let _ = std::fs::remove_file(&out);
+    }
+    outcomes
 }
